@@ -99,6 +99,44 @@ func c10InitPools() {
 	})
 }
 
+// c10FaultFactory is what the worker pools open stores through: the real store of the
+// instance, except that a checkpoint or trim write fails when the environment says so.
+type c10FaultFactory struct {
+	inner store.Factory
+	in    *c10Inst
+}
+
+func (f *c10FaultFactory) ChannelStore(key ch.ChannelKey, id ch.ChannelID) (store.ChannelStore, error) {
+	cs, err := f.inner.ChannelStore(key, id)
+	if err != nil {
+		return nil, err
+	}
+	return &c10FaultStore{ChannelStore: cs, in: f.in}, nil
+}
+
+type c10FaultStore struct {
+	store.ChannelStore
+	in *c10Inst
+}
+
+var errC10Injected = fmt.Errorf("verif: injected store write failure")
+
+func (s *c10FaultStore) StoreCheckpoint(ctx context.Context, checkpoint ch.Checkpoint) error {
+	if s.in.failCheckpoint.Load() {
+		s.in.failedWrites.Add(1)
+		return errC10Injected
+	}
+	return s.ChannelStore.StoreCheckpoint(ctx, checkpoint)
+}
+
+func (s *c10FaultStore) TrimMessagesThrough(ctx context.Context, throughSeq uint64, opts store.RetentionTrimOptions) (store.RetentionTrimResult, error) {
+	if s.in.failTrim.Load() {
+		s.in.failedWrites.Add(1)
+		return store.RetentionTrimResult{}, errC10Injected
+	}
+	return s.ChannelStore.TrimMessagesThrough(ctx, throughSeq, opts)
+}
+
 // ---------------------------------------------------------------- MessageDB factory pool
 
 type c10Backend struct {
@@ -209,6 +247,10 @@ type c10Inst struct {
 	st      *machine.ChannelState
 	initErr error
 
+	// environment faults, read by the worker goroutines
+	failCheckpoint, failTrim atomic.Bool
+	failedWrites             atomic.Int64
+
 	recs     map[uint64]c10Rec // every record ever appended, by sequence
 	appended int
 	canon    string
@@ -219,7 +261,7 @@ var c10Ctx = context.Background()
 var (
 	c10nTrimDeleted, c10nTrimBlocked, c10nAdoptRegress, c10nReads, c10nReadNonEmpty, c10nReadClamped atomic.Int64
 	c10nBlockedHW, c10nBlockedCk, c10nBlockedISR, c10nBlockedLEO, c10nRetCheckpoint, c10nNoop, c10nBeyondLEO atomic.Int64
-	c10nBarrierRead, c10nMatrixStates, c10nVisibleAfterTrim                                                                        atomic.Int64
+	c10nBarrierRead, c10nMatrixStates, c10nVisibleAfterTrim, c10nCkFailed, c10nRetFaults                                                                        atomic.Int64
 )
 
 func c10New(cfg *c10Cfg) *c10Inst {
@@ -251,7 +293,7 @@ func c10New(cfg *c10Cfg) *c10Inst {
 	}
 	in.cs = cs
 	c10MuxG.mu.Lock()
-	c10MuxG.m[in.key] = in.fac
+	c10MuxG.m[in.key] = &c10FaultFactory{inner: in.fac, in: in}
 	c10MuxG.mu.Unlock()
 	in.results = c10SinkG.register(in.key)
 	in.r = NewReactor(ReactorConfig{ID: 0, LocalNode: 1, Store: c10MuxG, Pools: c10Pools, MailboxSize: 16})
@@ -441,13 +483,24 @@ func (in *c10Inst) apply(event string, env *mc.Env) (string, error) {
 		st.Progress[2] = machine.ReplicaProgress{Match: m}
 		return fmt.Sprintf("match=%d", m), nil
 	case "ck":
+		fail := env.Choose("checkpoint-write-fails", 2) == 1
 		opID := in.r.nextOpID()
 		fence := ch.Fence{ChannelKey: st.Key, Generation: st.Generation, Epoch: st.Epoch, LeaderEpoch: st.LeaderEpoch, OpID: opID}
+		in.failCheckpoint.Store(fail)
 		if err := in.r.submitStoreCheckpoint(c10Ctx, st.ID, fence, ch.Checkpoint{HW: st.HW}); err != nil {
+			in.failCheckpoint.Store(false)
 			return in.herr("submitStoreCheckpoint: %v", err)
 		}
 		res := <-in.results
+		in.failCheckpoint.Store(false)
 		in.r.handleWorkerResult(Event{Kind: EventWorkerResult, Worker: res})
+		if fail {
+			if res.Err == nil {
+				return in.herr("injected checkpoint failure was not reported by the worker")
+			}
+			c10nCkFailed.Add(1)
+			return fmt.Sprintf("checkpoint write failed; runtime checkpoint=%d", st.CheckpointHW), nil
+		}
 		if res.Err != nil {
 			return in.herr("checkpoint task: %v", res.Err)
 		}
@@ -465,8 +518,15 @@ func (in *c10Inst) applyRetention(x uint64, bounded bool, env *mc.Env) (string, 
 	if err != nil {
 		return in.herr("read-all before: %v", err)
 	}
-	// decision-time inputs (the reactor decides on the state it holds when the request arrives)
-	safe := min(st.HW, st.CheckpointHW, st.LEO)
+	durable, err := in.cs.Load(c10Ctx)
+	if err != nil {
+		return in.herr("Load before: %v", err)
+	}
+	// decision-time inputs (the reactor decides on the state it holds when the request arrives);
+	// "checkpointed" means the DURABLE checkpoint read back from the store, which the runtime's
+	// CheckpointHW must never run ahead of
+	durableCk := durable.CheckpointHW
+	safe := min(st.HW, st.CheckpointHW, durableCk, st.LEO)
 	if in.cfg.leader {
 		safe = min(safe, st.LEO, in.match()) // ISR = {local (LEO), node 2 (recorded progress)}
 	}
@@ -481,6 +541,18 @@ func (in *c10Inst) applyRetention(x uint64, bounded bool, env *mc.Env) (string, 
 	if bounded {
 		req.Options.MaxTrimMessages = 1
 	}
+	// environment faults (one deviation each): the retention-owned checkpoint write fails / the trim write fails
+	ckFail, trimFail := false, false
+	if x > st.PhysicalRetentionThroughSeq && x <= st.HW && x > st.CheckpointHW {
+		ckFail = env.Choose("retention-checkpoint-write-fails", 2) == 1
+	}
+	if x > st.PhysicalRetentionThroughSeq && x <= st.HW && x <= st.CheckpointHW {
+		trimFail = env.Choose("trim-write-fails", 2) == 1
+	}
+	in.failCheckpoint.Store(ckFail)
+	in.failTrim.Store(trimFail)
+	failedBefore := in.failedWrites.Load()
+	defer func() { in.failCheckpoint.Store(false); in.failTrim.Store(false) }()
 	fut := NewFuture()
 	ckBefore := in.rc.retentionCheckpointOp
 	in.r.handleApplyRetentionBoundary(Event{Kind: EventApplyRetentionBoundary, Key: st.Key, Context: c10Ctx, Future: fut, RetentionApply: req})
@@ -507,8 +579,12 @@ func (in *c10Inst) applyRetention(x uint64, bounded bool, env *mc.Env) (string, 
 		return in.herr("retention future not completed after %d worker results", len(got))
 	}
 	out := fut.Result()
-	if out.Err != nil {
+	injected := in.failedWrites.Load() > failedBefore
+	if out.Err != nil && !(trimFail && injected) {
 		return in.herr("ApplyRetentionBoundary(%d): %v", x, out.Err)
+	}
+	if injected {
+		c10nRetFaults.Add(1)
 	}
 	after, err := in.present()
 	if err != nil {
@@ -529,11 +605,13 @@ func (in *c10Inst) applyRetention(x uint64, bounded bool, env *mc.Env) (string, 
 			switch {
 			case seq <= st.HW && seq > st.CheckpointHW:
 				clause = "checkpoint"
+			case seq <= st.HW && seq > durableCk:
+				clause = "durable-checkpoint"
 			case seq <= st.HW && seq <= st.CheckpointHW && in.cfg.leader && seq > in.match():
 				clause = "isr-progress"
 			}
-			return "", mc.Violatef("C10:trim-deleted-uncovered-message:"+clause, "apply retention through %d on a %s deleted seq %d which is above min(HW=%d, checkpointHW=%d, LEO=%d, ISR match=%d)=%d",
-				x, role, seq, st.HW, st.CheckpointHW, st.LEO, in.match(), safe)
+			return "", mc.Violatef("C10:trim-deleted-uncovered-message:"+clause, "apply retention through %d on a %s deleted seq %d which is above min(HW=%d, runtime checkpointHW=%d, durable checkpointHW=%d, LEO=%d, ISR match=%d)=%d",
+				x, role, seq, st.HW, st.CheckpointHW, durableCk, st.LEO, in.match(), safe)
 		}
 	}
 	if len(after) > len(before)-deleted {
@@ -542,6 +620,11 @@ func (in *c10Inst) applyRetention(x uint64, bounded bool, env *mc.Env) (string, 
 		// was adopted is unreadable until the prefix below the gap is trimmed. Check() still
 		// requires every readable row to be an appended record.
 		c10nVisibleAfterTrim.Add(1)
+	}
+	if out.Err != nil {
+		// the injected trim failure: nothing may have been deleted (checked above) and the runtime
+		// must not claim progress (checked as an invariant in Check)
+		return fmt.Sprintf("ret(%d) failed: injected trim write failure; deleted=%d", x, deleted), nil
 	}
 	r := out.RetentionApply
 	switch r.BlockedReason {
@@ -631,6 +714,10 @@ func (in *c10Inst) Check() error {
 	}
 	in.canon = canon
 	st := in.st
+	if st.LocalRetentionThroughSeq > ret.LocalRetentionThroughSeq || st.PhysicalRetentionThroughSeq > ret.PhysicalRetentionThroughSeq {
+		return mc.Violatef("C10:runtime-retention-ahead-of-store", "runtime retention local=%d physical=%d is ahead of the durable store state local=%d physical=%d",
+			st.LocalRetentionThroughSeq, st.PhysicalRetentionThroughSeq, ret.LocalRetentionThroughSeq, ret.PhysicalRetentionThroughSeq)
+	}
 	if ret.PhysicalRetentionThroughSeq > ret.LocalRetentionThroughSeq {
 		return mc.Violatef("C10:physical-above-logical-retention", "physical retention %d above adopted logical boundary %d", ret.PhysicalRetentionThroughSeq, ret.LocalRetentionThroughSeq)
 	}
@@ -767,8 +854,9 @@ func TestVerifC10Reactor(t *testing.T) {
 	for _, s := range systems {
 		cfg := s.cfg
 		mc.Run(r, mc.System{
-			Name: cfg.name, New: func() mc.Instance { return c10New(cfg) }, MaxDepth: s.depth, MaxDeviations: 1,
+			Name: cfg.name, New: func() mc.Instance { return c10New(cfg) }, MaxDepth: s.depth, MaxDeviations: ev.Pick(r, 1, 2),
 			Bounds: map[string]any{"backend": cfg.backend, "leader": cfg.leader, "max_appends": cfg.maxLog, "barrier_records": !cfg.noBarrier,
+				"environment": "per history <= max_deviations of: checkpoint write fails (ck event / retention-owned checkpoint), trim write fails, retention result handled before checkpoint result",
 				"events":      "app:{n,b} hw:{+1,leo} ck ack:{+1,leo} ret:x (x in 1..LEO+1, regressions included) ret1:x (MaxTrimMessages 1; 2 <= x <= min(HW, checkpoint))",
 				"read_matrix": "direction x FromSeq 0..LEO+1 x MaxSeq {0,1,HW,checkpoint,LEO,LEO+1} x MinSeq {0,1,L+1,P+1,R+1,LEO+1} x Limit {0,1,2}; memory backend in thorough: MaxSeq and MinSeq 0..LEO+1 each", "full_cube": cfg.fullCube},
 			Note: "states merged on (runtime offsets/retention/progress, store Load + RetentionState + surviving rows)",
@@ -793,10 +881,13 @@ func TestVerifC10Reactor(t *testing.T) {
 	r.Count("read_matrix_states", c10nMatrixStates.Load())
 	r.Count("barrier_rows_returned_at_store_seam", c10nBarrierRead.Load())
 	r.Count("rows_readable_only_after_trim", c10nVisibleAfterTrim.Load())
+	r.Count("failed_checkpoint_writes", c10nCkFailed.Load())
+	r.Count("retention_applies_with_failed_store_write", c10nRetFaults.Load())
 	r.Guard("trim-deleted", c10nTrimDeleted.Load() > 0, "%d retention applies physically deleted rows", c10nTrimDeleted.Load())
 	r.Guard("trim-blocked-by-every-clause", c10nBlockedHW.Load() > 0 && c10nBlockedCk.Load() > 0 && c10nBlockedISR.Load() > 0,
 		"blocked: hw_lag=%d checkpoint_lag=%d min_isr_lag=%d leo_lag=%d", c10nBlockedHW.Load(), c10nBlockedCk.Load(), c10nBlockedISR.Load(), c10nBlockedLEO.Load())
 	r.Guard("regressing-boundaries", c10nAdoptRegress.Load() > 0, "%d requests below the current logical boundary", c10nAdoptRegress.Load())
 	r.Guard("reads-clamped", c10nReadClamped.Load() > 0 && c10nReadNonEmpty.Load() > 0, "%d reads with an effective MaxSeq/MinSeq clamp, %d non-empty", c10nReadClamped.Load(), c10nReadNonEmpty.Load())
+	r.Guard("store-write-faults", c10nCkFailed.Load() > 0 && c10nRetFaults.Load() > 0, "%d checkpoint events with a failed store write, %d retention applies with a failed checkpoint/trim write", c10nCkFailed.Load(), c10nRetFaults.Load())
 	r.Guard("retention-checkpoint-path", c10nRetCheckpoint.Load() > 0, "%d retention-owned checkpoints submitted", c10nRetCheckpoint.Load())
 }
